@@ -13,26 +13,26 @@ TECH = "contract-based deductive verification: Verus/Z3 on functions cut mechani
 
 TEXT = {
  "C01": ("proof",
-  "TransformStream::{write,end}, every Dispatcher function on the output path, Arena, the lexeme constructors and emit actions of the Lexer and the token serialisers (raw path) are verified for all inputs against the tiling invariant `sink ++ held-back == written` for an observer-only controller; each state!-generated function and every Lexer/TagScanner action is verified against the register contract that makes lexemes well-formed and tiling. Parser::parse's driver loop enters through one assumed contract (A-parse-loop).",
-  "assumes A-parse-loop (composition of the verified state functions by the fn-pointer driver loop), A-enc-roundtrip for text under a text handler, A-impl-glue, std Vec/slice specs, memchr meaning; user handlers are environment"),
+  "TransformStream::{write,end}, every Dispatcher function on the output path, Arena, the lexeme constructors and emit actions of the Lexer and the token serialisers (raw path) are verified for all inputs against the tiling invariant `sink ++ held-back == written` for an observer-only controller; each state!-generated function and every Lexer/TagScanner action is verified against the register contract that makes lexemes well-formed and tiling. Parser::parse itself (driver loop, tile clause) is verified in U-SM; U-TS uses it through a stub carrying the proved clauses (A-parse-boundary). The text decoder's bookkeeping is verified over an opaque coder (U-TXT: no byte bypasses a pending decoder).",
+  "assumes A-parse-boundary (two Verus files: the stub's clauses are the ones proved for the real Parser::parse, not re-checked by the solver), A-enc-roundtrip for text under a text handler, A-impl-glue, std Vec/slice specs, memchr meaning; user handlers are environment"),
  "C02": ("proof",
   "boundary transparency is proved per function: break_on_end_of_input re-bases the cursor by exactly the consumed count, consumed is a function of the registers, Align impls are exact shifts (relational spec), Arena::shift drops exactly the consumed prefix, and every state function re-establishes the register invariant; the relational clause (two chunkings give the same events) is not a unary contract and is covered only by the bounded executor",
   "relational residual not decided deductively; A-parse-loop; A-enc-stream for characters split inside encoding_rs' decoder"),
  "C03": ("proof",
-  "tree-builder feedback is never lost: every state function is verified to leave the machine in a state whose text type is the current one (st_type), emit_tag/finish_tag_name/try_get_tree_builder_feedback are verified on the real bodies; the text-type table, the foreign-content exit list, the ambiguity guard (refuses exactly inside select/template-in-select/frameset) and LocalNameHash::update are proved over the full u64 domain by Kani. Equivalence of the ~70 transition tables with the WHATWG tokenizer is NOT decided.",
-  "WHATWG table equivalence not decided (would require the standard as a spec); RequestLexeme callbacks are opaque; A-parse-loop"),
+  "tree-builder feedback is never lost: every state function is verified to leave the machine in a state whose text type is the current one (st_type), emit_tag/finish_tag_name/try_get_tree_builder_feedback are verified on the real bodies; the text-type table, the foreign-content exit list, the ambiguity guard (refuses exactly inside select/template-in-select/frameset) and LocalNameHash::update are proved over the full u64 domain by Kani. Equivalence of the ~70 transition tables with the WHATWG tokenizer is NOT decided. The namespace stack of the tree-builder simulator is verified (U-TBSV: enter pushes exactly, leave pops exactly one, never empty). A list of hand-derived WHATWG conformance cases for foreign content runs in the bounded executor.",
+  "WHATWG table equivalence not decided (would require the standard as a spec); RequestLexeme callbacks are opaque; A-parse-loop; get_feedback_for_start_tag_in_foreign_content / check_integration_point_exit (closures) opaque; known findings F-C03-2 (`<svg/>`), F-C03-3 (`</title>` inside an SVG integration point)"),
  "C04": ("proof",
-  "leaf semantics only: NthChild::has_index is proved equal to the CSS An+B definition (exists n >= 0. A*n+B == index) for all i32 triples, with no overflow (Verus, real body, nonlinear lemmas); the six attribute operators with all case modes and first-match case-insensitive attribute lookup are checked against spec functions on bounded strings (Kani, bounded, not counted)",
+  "leaf semantics only: NthChild::has_index is proved equal to the CSS An+B definition (exists n >= 0. A*n+B == index) for all i32 triples, with no overflow (Verus, real body, nonlinear lemmas); the six attribute operators with all case modes and first-match case-insensitive attribute lookup are checked against spec functions on bounded strings (Kani, bounded, not counted) DenseHashSet (the set of matched handler ids) insert is proved exact for every u32 id (Verus U-DHS); Stack::get_stack_directive (void / self-closing-in-foreign) is complete over all name hashes (Kani U-STK); the selector compiler, VM and element stack are exercised only by the bounded oracle (322 generated selectors x all tag sequences up to length 4/5 + pseudo-random longer ones, independent CSS/tree oracle).",
   "cssparser/selectors parsing, the selector compiler and the VM's jump/bail-out logic are not under contract (bounded stand-in only); hashbrown maps trusted; known finding F-C04-1 (:not() with a compound argument)"),
  "C05": ("proof",
-  "the dispatcher flushes pending text before a tag reaches the controller and calls handle_end once after the last flush (Verus, real bodies); HandlerVec's for_each_active / deactivate / remove_tail call exactly the active handlers once, in the documented order, and keep user_count == sum of item counts (Kani, vector length <= 3, symbolic counts: bounded)",
+  "the dispatcher flushes pending text before a tag reaches the controller and calls handle_end once after the last flush (Verus, real bodies); HandlerVec's for_each_active / deactivate / remove_tail call exactly the active handlers once, in the documented order, and keep user_count == sum of item counts (Kani, vector length <= 3, symbolic counts: bounded) Exactly one last-in-text-node chunk per text node (Verus U-TXT); DenseHashSet insert (U-DHS); stack directive (Kani U-STK).",
   "user handlers are environment; which elements match is C04; ContentHandlersDispatcher::{start,stop}_matching composition bounded only"),
  "C06": ("proof",
   "everything one machine hands to the other is in the bookmark (create_bookmark / change_parser_directive / continue_from_bookmark pieces verified), got_flags_from_hint is set iff the scanner really hands the tag to the lexer, feedback is requested once per tag (Skip / ApplyUnhandledFeedback hand-over), and both machines run the same verified state functions under the same text-type invariant; the relational clause (H vs H+O give the same events) is not decided deductively",
   "relational residual bounded only; A-parse-loop"),
  "C07": ("proof",
   "the edit algebra is verified on the real bodies: MutationsInner::{replace,remove}, DynamicString::{push_front,push_back,clear,encode}, the impl_serialize! expansion for Comment/StartTag/EndTag (output == before ++ (self | replacement) ++ after), serialize_self of the three token kinds, every Element content mutator (after/prepend/append/set_inner_content/replace/remove/remove_and_keep_content incl. the void-element no-ops) against an abstract (start-tag edit, end-tag edit) view, and the dispatcher's emission toggling",
-  "Element struct reduced to the fields the mutators touch; Mutations::mutate/if_mutated assumed (A-mutate); attribute list serialisation and text chunks abstract; streaming handlers environment"),
+  "Element struct reduced to the fields the mutators touch; Mutations::mutate/if_mutated assumed (A-mutate); attribute list serialisation and text chunks abstract; streaming handlers environment; attribute edits (set/remove with duplicates) only through the bounded attribute mode of U-PARSE-B"),
  "C08": ("proof",
   "attribute values: escape_double_quotes_only is proved, for every byte string, to emit exactly the input with each `\"` replaced by `&quot;` (Verus, real loop with an inductive invariant), <&Attribute as Serialize>::into_bytes emits name=\"<escaped value>\" and the part between the quotes is proved quote-free, so a value can never close the attribute it is written into; text escaping (escape_body_text) and the validators of names / comment text are bounded only (Kani harnesses on short strings, re-parse check of the real crate in U-PARSE-B)",
   "A-split (std split_at_checked/get(1..) glue replaced by an assumed helper), A-memchr; escape_body_text, set_tag_name/set_attribute name validation, Comment::set_text and encoding of inserted content are NOT under a deductive contract (bounded stand-ins only); encoding_rs trusted"),
@@ -41,7 +41,7 @@ TEXT = {
   "A-parse-loop; look-ahead length bound not stated as a contract"),
  "C10": ("proof",
   "limiter: Ok <=> prev+n <= max and the charge is recorded (Kani function contracts, full usize domain, complete); Arena::append charges exactly the growth before reserving and is unchanged on failure, LimitedVec::push charges capacity*size_of and Drop returns it (Kani, symbolic limit, lengths bounded); Arena's sequence view and the three buffer error exits of write() (Verus, unbounded). One known finding (F-C10-1, ns_stack).",
-  "A-no-usize-wrap, A-reserve-exact (try_reserve_exact may over-allocate), monotonicity in M relational"),
+  "A-no-usize-wrap, A-reserve-exact (try_reserve_exact may over-allocate), monotonicity in M relational; bounded heap-growth and combined-limit probes (counting allocator) in U-PARSE-B"),
  "C11": ("proof",
   "the four error exits of write/end are verified: bail-out handlers run exactly once iff the error's own flag is set (ParsingAmbiguity never), before the raw flush; the flush covers every unemitted received byte; try_produce_token_from_lexeme keeps rcs at the failing lexeme (commit discipline). One known finding (F-C11-1: bytes held by the streaming text decoder are lost).",
   "A-parse-loop; observer-only controller for the byte-exact clause; the documented text-handler exception is modelled by the ghost text_failed"),
@@ -49,17 +49,17 @@ TEXT = {
   "sink protocol as preconditions: handle_chunk requires !finalized, a zero-length chunk sets finalized; every emitting function is verified to keep the sink open, emit_token_bytes (the only path of token bytes) skips empty pieces, finish sends the empty chunk exactly on Ok, Dispatcher::new logs the encoding before any byte, flush_encoding_change logs at the current length",
   "HtmlRewriter's guarded! poisoning not yet under contract; serialisers' pieces abstract (R5 stub into_bytes_v)"),
  "C13": ("proof",
-  "only the dispatcher side so far: the encoding switch takes effect in flush_encoding_change after the meta tag's token was consumed and the sink is notified before any later byte; Dispatcher::new announces the initial encoding",
-  "decoder/encoder loops (U-TXT) not yet under contract; encoding_rs trusted"),
+  "dispatcher side: the encoding switch takes effect in flush_encoding_change after the meta tag's token was consumed and the sink is notified before any later byte, Dispatcher::new announces the initial encoding (Verus U-TS); text decoder: over an opaque coder (A-coder) the real feed_text/flush_pending/split_utf8_start loops are verified - no byte bypasses a pending decoder, the decoder never sniffs a BOM, chunk ranges tile the input (Verus U-TXT); UTF-8 width helper complete over all u8 (Kani). What the coder computes (the 36 encodings) is covered only by the bounded encoding oracle against encoding_rs' one-shot decoder.",
+  "A-coder (encoding_rs opaque: consumes a prefix, InputEmpty => all), A-txt-wf (TextDecoder invariant assumed at entry; a Verus limitation blocks re-proving it on the not-last path); the encoder for inserted content (TextEncoder) is not under contract (bounded only)"),
  "C14": ("proof",
-  "Lexeme::spanned == (previously_consumed + raw.start, input[raw]); create_lexeme_with_raw* build [lexeme_start, pos(+1)); emit actions tile (lexeme_start' == raw.end); every emitted lexeme is well-formed; Align impls are exact shifts so ranges survive a boundary; SpannedRawBytes::{len,set_modified,original} keep start and length",
-  "A-parse-loop (previously_consumed_byte_count += consumed in Parser::parse); attribute and text-chunk locations not yet under contract"),
+  "Lexeme::spanned == (previously_consumed + raw.start, input[raw]); create_lexeme_with_raw* build [lexeme_start, pos(+1)); emit actions tile (lexeme_start' == raw.end); every emitted lexeme is well-formed; Align impls are exact shifts so ranges survive a boundary; SpannedRawBytes::{len,set_modified,original} keep start and length Text-chunk source ranges tile their text node for every decoder behaviour (Verus U-TXT).",
+  "A-parse-loop (previously_consumed_byte_count += consumed in Parser::parse); text-chunk locations verified in U-TXT (tiling incl. bytes swallowed by the decoder); attribute locations not under contract"),
  "C15": ("proof",
-  "for every function under contract Verus proves absence of overflow/underflow, out-of-bounds slicing/indexing, failed unwrap and failed (debug_)assert; in particular the lexer's and scanner's ActionError::internal sites are proved unreachable and the comment-range arithmetic cannot overflow. Kani adds bit-precise full-domain proofs for the limiter, LocalNameHash::update, NthChild::has_index. Decided only for the functions listed in the evidence.",
+  "for every function under contract Verus proves absence of overflow/underflow, out-of-bounds slicing/indexing, failed unwrap and failed (debug_)assert; in particular the lexer's and scanner's ActionError::internal sites are proved unreachable and the comment-range arithmetic cannot overflow. Kani adds bit-precise full-domain proofs for the limiter, LocalNameHash::update, NthChild::has_index. Decided only for the functions listed in the evidence. Added units: U-NTH, U-ESCQ, U-DHS, U-TXT, U-TBSV (overflow / bounds / unreachable internal asserts in has_index, the escaper, DenseHashSet::insert, the text decoder loop and the namespace stack).",
   "rest of the crate not covered; termination of state functions not proved (exec_allows_no_decreases_clause); stack depth, linear time not addressed"),
  "C16": ("proof",
-  "the lexer's token-building actions are verified on the real bodies (ranges from token_part_start..pos, comment range arithmetic, attribute push only for start tags, tag token exists wherever it is used); attribute lookup is first-match ASCII case-insensitive (Kani, bounded)",
-  "Attributes materialisation, set/remove_attribute and can_have_content not yet under contract"),
+  "the lexer's token-building actions are verified on the real bodies (ranges from token_part_start..pos, comment range arithmetic, attribute push only for start tags, tag token exists wherever it is used); attribute lookup is first-match ASCII case-insensitive (Kani, bounded) The namespace stack behind namespace_uri()/self-closing handling is verified (U-TBSV); attribute reads/edits run against a list model in the bounded attribute mode.",
+  "Attributes materialisation, set/remove_attribute and can_have_content not yet under contract; known finding F-C16-1 (namespace_uri of integration-point elements)"),
 }
 
 
@@ -97,7 +97,7 @@ def main():
         engines=[dict(name="contracts", path="check + tools/ + specs/*.vrs + kani/*.rs", serves_properties=sorted(config.PROPS),
                       kind_free_text="Verus (SMT, unbounded) on mechanically extracted real functions; Kani/CBMC in the real crate")],
         checks=checks,
-        notes="fix: commits in /repo: 4af0cc7 (C09), 5531b15 (C03/C06), 1df4192 (C12); known findings in known_findings.json",
+        notes="fix: commits in /repo: 4af0cc7 (C09), 5531b15 (C03/C06), 1df4192 (C12), f654267 (C14), 2fa405e (C04), 85b408a (C04), b1c9092 (C13); known findings (F-C11-1, F-C04-1, F-C10-1, F-C03-2, F-C03-3, F-C16-1) in known_findings.json; ledger and seeded-change table in DESIGN.md section 0a",
         not_applicable=na,
     )
     json.dump(m, open(os.path.join(ROOT, "MANIFEST.json"), "w"), indent=1)
